@@ -38,6 +38,14 @@ class RRRef:
         o.credit = {k: 0 for k in self.classes}
         return o
 
+    def departed(self, c, class_empty):
+        """a packet of class c has just left; DRR forgets the credit as soon as the class's queue empties (which ends the visit),
+        whatever arrives later in that instant"""
+        if self.kind == 'DRR' and class_empty and self.in_visit and self.classes[self.ptr] == c:
+            self.credit[c] = 0
+            self.in_visit = False
+            self.ptr = (self.ptr + 1) % len(self.classes)
+
     def expect(self, waiting):
         """returns the packet the discipline must start next (None if nothing waits)"""
         if not any(waiting.get(c) for c in self.classes):
@@ -118,12 +126,20 @@ def h_rr(cfg):
                 d = r.sched.deficit[c]
                 check('c15.deficit-range', And(ge(d, 0), lt(d, q + Lmax)), c)
 
-    r = SchedRun(cfg, stepping=True, on_start=on_start, on_dep=lambda p: deficit_check())
+    def on_dep(p):
+        r = box['r']
+        c = r.cls(p)
+        for cand in box['cands']:
+            cand.departed(c, not r.waiting.get(c))
+        deficit_check()
+
+    r = SchedRun(cfg, stepping=True, on_start=on_start, on_dep=on_dep)
     box['r'] = r
     box['cands'] = [RRRef(r)]
     if not r.run():
         return
-    r.no_tie_assumption()
+    if not cfg.get('ties_at_departures'):
+        r.no_tie_assumption()
     if not r.check_all_depart_once('c15'):
         return
     check('c15.every-start-seen', len(r.starts) == r.n)
@@ -191,6 +207,11 @@ def jobs(tier, seed):
         cfg = {'kind': kind, 'rate': 8192 if kind == 'DRR' else 8, 'table': t, 'flows': [0, 1, 0, 1, 1, 0, 0, 1][:m], 'sorts': 'int',
                'burst': [0, 1, 1, 1, 0, 1, 1, 1][:m], 'smax': 2 if kind != 'DRR' else 1600}
         js.append({'harness': 'rr', 'cfg': cfg, 'weight': 60, 'opts': {'max_paths': 20000}})
+    # arrivals in the very instant a transmission ends, after the delivery (late wake-up): the class may have just emptied
+    for kind, t in (('DRR', {0: 1, 1: 2}), ('RR', {0: 1, 1: 1}), ('WRR', {0: 1, 1: 2})):
+        cfg = {'kind': kind, 'rate': 8192, 'table': t, 'flows': [0, 1, 1, 0], 'sorts': 'int', 'burst': [0, 1, 1, 0],
+               'split_gap': [3], 'smax': 1600 if kind == 'DRR' else 3, 'ties_at_departures': True}
+        js.append({'harness': 'rr', 'cfg': cfg, 'weight': 80, 'opts': {'max_paths': 8000}})
     # very long visits: a weight of 10 (WRR) and 13 packets handed in at one instant
     for kind, t in (('WRR', {0: 10, 1: 1}), ('RR', {0: 1, 1: 1}), ('WRR', {0: 1, 1: 12})):
         cfg = {'kind': kind, 'rate': 8, 'table': t, 'flows': [0] * 11 + [1, 1] if t[0] >= t[1] else [1] * 11 + [0, 0], 'sorts': 'int',
